@@ -396,4 +396,19 @@ pub mod verif {
     ) -> bool {
         new.may_invalidate(interner, current)
     }
+
+    /// `AggregateOps::make_solution` over a caller-supplied answer stream.
+    pub fn make_solution<I: Interner>(
+        program: &dyn chalk_solve::RustIrDatabase<I>,
+        root_goal: &chalk_ir::UCanonical<chalk_ir::InEnvironment<chalk_ir::Goal<I>>>,
+        answers: impl crate::context::AnswerStream<I>,
+        should_continue: impl std::ops::Fn() -> bool + Clone,
+    ) -> Option<chalk_solve::Solution<I>> {
+        use super::aggregate::AggregateOps;
+        super::SlgContextOps::new(program, 10, None).make_solution(
+            root_goal,
+            answers,
+            should_continue,
+        )
+    }
 }
